@@ -202,6 +202,20 @@ func TestVerif_C39(t *testing.T) {
 	r := vmc.New("C39", "model_checking")
 	r.Rule = "all delivery interleavings (stateless DFS over the next link to deliver from) of 1-3 concurrent real SendControlRequest calls through one real transit, each issuer numbering its requests from 1; non-trivial = executions with at least two concurrent requests; outcomes = distinct (scenario, who answered whom)"
 	r.Assume("links FIFO and reliable; routes converged before the requests; callers run in their own goroutines and are awaited with count-based barriers")
+	var probe struct {
+		Kind string `json:"kind"`
+	}
+	if r.ReplayInto(&probe) && probe.Kind == "fail-link" {
+		var fs c39FailScenario
+		r.ReplayInto(&fs)
+		c39RunFail(r, fs, vmc.NewReplayChooser(fs.Choices))
+		r.Add("states", 1)
+		r.Add("transitions", 1)
+		if err := r.Finish(); err != nil {
+			t.Fatal(err)
+		}
+		return
+	}
 	var rp c39Scenario
 	if r.ReplayInto(&rp) {
 		c39Run(r, rp, vmc.NewReplayChooser(rp.Choices))
@@ -223,6 +237,8 @@ func TestVerif_C39(t *testing.T) {
 		r.Add("traces_validated_against_impl", st.Executions)
 		r.Sample(map[string]any{"scenario": sc.Name, "requests": sc.Reqs, "interleavings": st.Executions})
 	}
+	// part F: the relay's write to the next hop fails (fail_test.go)
+	c39FailPart(r)
 	if err := r.Finish(); err != nil {
 		t.Fatal(err)
 	}
